@@ -40,7 +40,7 @@ def main():
     else:
         cases = []
         ks = [None] + list(range(0, 13 if args.tier == "quick" else 25))
-        for transport in ("sdo", "pdo"):
+        for transport in ("sdo", "pdo", "sdo_dis"):
             for init in STATES:
                 for target in STATES:
                     for k in (ks if init in ("NOT READY TO SWITCH ON", "FAULT REACTION ACTIVE") else [0]):
@@ -53,6 +53,19 @@ def main():
                     for lag in ((1, 2, 4) if transport == "sdo" else ()):
                         cases.append({"kind": "state", "init": init, "targets": [target], "auto_after": 0, "lag": lag,
                                       "extra": False, "transport": transport})
+            # a drive about as slow as the library's single-step time-out: the step completes while the
+            # library is between two attempts
+            if transport == "sdo":
+                for init in ("SWITCH ON DISABLED", "READY TO SWITCH ON", "SWITCHED ON", "OPERATION ENABLED", "FAULT"):
+                    for target in STATES[1:6]:
+                        for lag in ((76, 82, 86, 92) if args.tier == "quick" else range(70, 110, 2)):
+                            cases.append({"kind": "state", "init": init, "targets": [target], "auto_after": 0,
+                                          "lag": lag, "extra": False, "transport": transport})
+            # a fault whose cause persists for the first reset attempts
+            for target in STATES[1:6]:
+                for sticky in (1, 2):
+                    cases.append({"kind": "state", "init": "FAULT", "targets": [target], "auto_after": 0, "sticky": sticky,
+                                  "extra": False, "transport": transport})
             # histories with a slow drive and state changes the drive makes by itself in between
             for _ in range(60 if args.tier == "quick" else 600):
                 tg = []
@@ -72,6 +85,7 @@ def main():
                 [rng.getrandbits(32) for _ in range(8 if args.tier == "quick" else 200)]
         for i in range(0, len(masks), 6):
             cases.append({"kind": "opmode", "masks": masks[i:i + 6], "modes": MODES, "transport": "sdo"})
+            cases.append({"kind": "opmode", "masks": masks[i:i + 6], "modes": MODES, "transport": "sdo_dis"})
             cases.append({"kind": "opmode", "masks": masks[i:i + 6], "modes": MODES, "transport": "pdo",
                           "seed": rng.randrange(1 << 30)})
     results = run_cases("harness.drv_p402:run_case", cases, jobs=args.jobs, timeout=60)
